@@ -211,7 +211,8 @@ static void han_gen(Ctx& ctx) {
     for (int n : {1023, 1024, 1025, 1549, 2047, 2048, 2049, 2963, 3089, 4093, 4094, 4095, 4096}) if (n > full) lens.push_back(n);
     for (int n : lens)
         for (int cls = 0; cls < H_NCLASSES; ++cls) {
-            if (ctx.quick() && n > 2100 && cls != H_ALT && cls != H_TONE_NYQ && cls != H_GAUSS && cls != H_TONE_OFF) continue;
+            // long lengths: the classes that matter most (Nyquist/DC content, leakage, noise, the Bluestein worst case)
+            if (n > 2048 && cls != H_ALT && cls != H_TONE_NYQ && cls != H_GAUSS && cls != H_TONE_OFF && cls != H_CONST) continue;
             if (!ctx.mine()) continue;
             ctx.eval(Json::object().set("n", n).set("cls", cls).set("seed", (long long)(mix(ctx.seed, key_of(14, n, cls)) >> 16)));
         }
